@@ -88,11 +88,12 @@ add(Contract(
         ("pos-restored", "state.pos == old(state.pos)", ["C01", "C02"]),
         ("label-end", "result == -1 or (start < result and result < state.posMax and state.src[result] == ']')", ["C01", "C02"]),
         ("cache-inv", CACHE_INV, ["C20"]),
+        IL.CACHE_MONO + (["C20"],),
         ("level", "state.level == old(state.level) and state.posMax == old(state.posMax)", ["C02"]),
     ],
     loops={0: {"types": {"marker": "char", "prevPos": "int"},
                "inv": [("pos", "start + 1 <= state.pos and state.posMax <= len(state.src) and state.posMax == old(state.posMax)"), ("level", "level >= 1 and state.level == old(state.level)"),
-                       ("not-found", "not found and labelEnd == -1 and oldPos == old(state.pos)"), ("cache-inv", CACHE_INV)],
+                       ("not-found", "not found and labelEnd == -1 and oldPos == old(state.pos)"), ("cache-inv", CACHE_INV), IL.CACHE_MONO],
                "dec": "state.posMax - state.pos"}},
 ))
 FUNCS = [Q, QD, QL]
